@@ -105,6 +105,14 @@ func (tb *ATable) RegisterPropertyCallback(
 
 	// TODO: handle _time_ sanity checks, too; warn if would never be invoked.
 
+	// A renderer wrapper around this table (or around another wrapper of it)
+	// designates the table itself: the callbacks live in the core table.
+	if _, isCore := owner.(*ATable); !isCore {
+		if _, isTable := owner.(Table); isTable {
+			owner = tb
+		}
+	}
+
 	switch base := owner.(type) {
 	case *ATable:
 		switch target {
